@@ -37,16 +37,17 @@ ENDINGS = ["shutdown_outside", "shutdown_thread", "shutdown_double", "shutdown_t
 def plan(tier, seed):
     if tier == "thorough":
         return [dict(seed=seed, shard=i, n=60) for i in range(16)] + [dict(seed=seed, shard="polling", kind="polling", n=400), dict(seed=seed, shard="late_stop", kind="late_stop"),
-                                                                   dict(seed=seed, shard="bursts", kind="bursts", n=30)]
+                                                                   dict(seed=seed, shard="bursts", kind="bursts", n=30),
+                                                                   dict(seed=seed, shard="reaccept0", kind="reaccept", n=12), dict(seed=seed, shard="reaccept1", kind="reaccept", n=12)]
     return [dict(seed=seed, shard=i, n=5) for i in range(16)] + [dict(seed=seed, shard="polling", kind="polling", n=60), dict(seed=seed, shard="late_stop", kind="late_stop"),
-                                                                  dict(seed=seed, shard="bursts", kind="bursts", n=4)]
+                                                                  dict(seed=seed, shard="bursts", kind="bursts", n=4), dict(seed=seed, shard="reaccept", kind="reaccept", n=2)]
 
 
 def gen_generation(rnd, index, ending):
     # accept_delay 0: the accept loop polls without pausing (a legal, if wasteful, setting)
     gen = {"accept_delay": rnd.choice([0.01, 0.03, 0.05, 0.1, 0.3, 0, 0]), "payloads": [], "services": [], "grace": 0.15}
     script = [["wait_running", 10]]
-    population = rnd.choice(["none", "sleepers", "sleepers", "blocked", "mixed", "submitters", "cross", "many", "services"])
+    population = rnd.choice(["none", "sleepers", "sleepers", "blocked", "mixed", "submitters", "cross", "many", "services", "dispatcher"])
     if population == "services":
         # services keep being created by other threads while the accept loop polls: nothing of that may end the runner
         sid = 0
@@ -59,6 +60,12 @@ def gen_generation(rnd, index, ending):
                     ops.append(["sleep", rnd.choice([0.0, 0.002])])
                 sid += 1
             script.append(["thread", ops])
+    if population == "dispatcher":
+        # a thread payload keeps handing over trio payloads, also while the runtime finishes the cleanup of a slow one
+        gen["payloads"].append({"id": "slow", "flavour": "trio", "when": "queued", "program": [["block"]],
+                                "cleanup": {"kind": "shielded", "dur": rnd.choice([0.15, 0.3, 0.5])}})
+        gen["payloads"].append({"id": "streamer", "flavour": "threading", "when": "queued", "cleanup": {"kind": "none"},
+                                "program": [["adopt_stream", rnd.choice(["trio", "trio", "asyncio", "threading"]), rnd.choice([0.002, 0.005])]]})
     if population == "many":
         # a large population of sleeping coroutines: ending the runtime must not take time per payload
         for i in range(rnd.choice([100, 150, 200])):
@@ -175,9 +182,34 @@ def gen_bursts(rnd, spec):
     return {"watchdog": 45, "inject": common.inject_conf(rnd, 0.3), "generations": gens, "meta": {"endings": ["shutdown_double"] * len(gens)}}
 
 
+def gen_reaccept(rnd, spec):
+    """accept() is called again on the accepting runner - also while a shutdown() request waits for the polling loop.
+
+    With an accept_delay of one second the loop pauses about half a second between two looks at its flags once it
+    has run for 1.7 s: a shutdown() made then is pending for a while, and the rejected accept falls into that window.
+    """
+    gens = []
+    for g in range(2):
+        pending = g == 0 or rnd.random() < 0.6
+        script = [["wait_running", 10], ["sleep", 1.7]]
+        if pending:
+            script += [["thread", [["shutdown"]]], ["sleep", rnd.choice([0.01, 0.03, 0.08])]]
+        for _ in range(rnd.choice([1, 1, 2])):
+            script += [["thread", [["second_accept", "same"]]], ["wait_event", "raised", None, 0.5]]
+        if not pending:
+            script += [["wait_event", "beat", "heart", 1.0], ["shutdown"]]
+        script.append(["expect_end", 8.0])
+        gens.append({"accept_delay": 1.0, "services": [], "grace": 0.1, "script": script,
+                     "payloads": [{"id": "heart", "flavour": rnd.choice(common.COROUTINE), "program": [["beat", 0.01, None]], "when": "queued", "cleanup": {"kind": "none"}}],
+                     "meta": {"ending": "shutdown_thread" if pending else "shutdown_outside", "population": "none", "second_accepts": 1, "pending": pending}})
+    return {"watchdog": 45, "inject": None, "generations": gens, "meta": {"endings": [g["meta"]["ending"] for g in gens]}}
+
+
 def gen_case(rnd, spec):
     if spec.get("kind") == "bursts":
         return gen_bursts(rnd, spec)
+    if spec.get("kind") == "reaccept":
+        return gen_reaccept(rnd, spec)
     n = rnd.choice([2, 2, 3, 3, 4, 5])
     gens = []
     for g in range(n):
@@ -320,6 +352,12 @@ def judge(case, run, result):
                              % (g, len(seconds_called) - len(seconds_raised), len(seconds_called)), None))
         elif seconds_called:
             result.count("concurrent_accepts_rejected", len(seconds_raised))
+            if any(e.get("same") for e in seconds_called):
+                result.count("accepts_on_the_accepting_runner_itself_rejected")
+                asked, done = run.first("call", gen=g, op="shutdown"), run.first("return", gen=g, op="shutdown")
+                if asked and any(asked["seq"] < e["seq"] and (done is None or e["seq"] < done["seq"]) for e in seconds_raised):
+                    # observed, not planned: the refusal came between a shutdown() call and its return
+                    result.count("accepts_on_the_accepting_runner_rejected_while_a_shutdown_request_was_pending")
             for e in run.of("raised", gen=g, op="shutdown-of-rejected-runner"):
                 problems.append(("generation %d: shutdown() of a runner whose accept had been rejected raised %s(%s)" % (g, e["exc"], e["msg"]), None))
             if run.of("rejected-runner-shut-down", gen=g):
@@ -351,6 +389,12 @@ def judge(case, run, result):
             result.count("endings_while_services_are_being_created")
         if meta["population"] == "many":
             result.count("endings_with_100_to_200_sleeping_coroutines")
+        if meta["population"] == "dispatcher":
+            asked = run.first("call", gen=g, op="shutdown") or run.first("fail", gen=g)
+            inside = [e for e in run.of("stream-adopt", gen=g) if asked and asked["seq"] < e["seq"] < ended["seq"]]
+            if inside:
+                result.count("endings_while_a_thread_payload_kept_adopting", 1)
+                result.count("adoptions_by_a_thread_payload_while_the_runtime_was_ending", len(inside))
         if gen["accept_delay"] == 0:
             result.count("generations_with_accept_delay_0")
         fails = [e for e in run.of("fail", gen=g) if e["seq"] < ended["seq"]]
@@ -414,7 +458,7 @@ def run_shard(spec):
 
 
 def finish(total, tier):
-    need = ["histories_completed", "polling_loops_checked", "restarts_of_the_same_runner_instance", "concurrent_accepts_rejected", "shutdown_calls_returned", "race_outcome_returned", "forced_late_stop_schedules_checked",
+    need = ["histories_completed", "polling_loops_checked", "restarts_of_the_same_runner_instance", "concurrent_accepts_rejected", "shutdown_calls_returned", "race_outcome_returned", "forced_late_stop_schedules_checked", "endings_while_a_thread_payload_kept_adopting", "accepts_on_the_accepting_runner_itself_rejected", "accepts_on_the_accepting_runner_rejected_while_a_shutdown_request_was_pending",
             "endings_with_trio_payloads_calling_into_asyncio", "rejected_runners_shut_down_beside_the_active_one", "endings_with_100_to_200_sleeping_coroutines", "endings_while_services_are_being_created", "generations_with_accept_delay_0", "shutdowns_with_asyncio_payload_failing_on_cancellation", "shutdowns_with_trio_payload_failing_on_cancellation"]
     need += ["ending_" + e for e in ENDINGS] + ["restarts_after_" + e for e in ENDINGS]
     for name in need:
